@@ -3,6 +3,7 @@ from engine.facts import CannotDecide, callee_is, path_matches
 from engine import cfg
 from .common import Table, client_dispatch_poll, reachable_local_fns, norm_path, message_send_sites
 
+EXTRA_CONFIGS = ('default', 'tokio1', 'serde1', 'serde-transport')   # feature configurations re-analysed in the thorough tier
 META = {
     'level': 'other',
     'technique': 'static provenance (backward slicing over MIR with field-overwrite tracking) of every trace-context field along call -> dispatch -> wire -> server -> handler and the cancel path',
